@@ -12,9 +12,9 @@ for f in $WT/OUT/*; do case "$f" in *patch.diff) ;; *) cp -r "$f" $OUT/ ;; esac;
 DEMO=$(ls $OUT | grep -i "demo" | head -1)
 echo "== demo: $DEMO"
 cd $WT
-git -C $WT stash -q -- src 2>/dev/null
+git -C $WT apply -R $OUT/patch.diff
 PYTHONPATH=$WT/src timeout 600 /venv/bin/python OUT/$DEMO > /tmp/seed_$ID.without.log 2>&1; W0=$?
-git -C $WT stash pop -q
+git -C $WT apply $OUT/patch.diff
 PYTHONPATH=$WT/src timeout 600 /venv/bin/python OUT/$DEMO > /tmp/seed_$ID.with.log 2>&1; W1=$?
 echo "demo exit without change: $W0 ; with change: $W1"
 cd /verif
